@@ -104,6 +104,14 @@ def parseCValue (s : String) : Option CValue :=
   | ["ptr", h] => (strOfHex h).map .pointer
   | _ => none
 
+def showCScalarF : CScalarF → String
+  | .null => "s.null"
+  | .bool b => if b then "s.bool:1" else "s.bool:0"
+  | .int i => s!"s.int:{i}"
+  | .float f => s!"s.float:{f}"
+  | .str s => "s.str:" ++ hexOfStr s
+  | .bytes b => "s.bytes:" ++ hex b
+
 def isTT : CValue → Bool
   | .vectorTT _ => true
   | _ => false
@@ -129,7 +137,7 @@ def crashList (same old fsyncFirst quant : Bool) (hl bl : Nat) : List (FS Bool) 
   let body := List.replicate bl 2
   let fs0 : FS Bool := fun p => if p = false && old then some ⟨oldBytes, []⟩ else none
   let tmp := !same
-  let ops := if quant then saveOpsQ tmp false (hdr ++ body) else saveOps tmp false hdr body fsyncFirst
+  let ops := if quant then saveOpsQ tmp false (hdr ++ body) fsyncFirst else saveOps tmp false hdr body fsyncFirst
   (crashStates fs0 ops, hdr ++ body)
 
 def showOp : IoOp Bool → String
@@ -180,7 +188,7 @@ def snapStep (_ : Unit) (line : String) : Unit × String :=
     match parseBool quant, parseBool fs, hl.toNat?, bl.toNat? with
     | some q, some fs, some hl, some bl =>
       let ops : List (IoOp Bool) :=
-        if q then saveOpsQ true false (List.replicate (hl + bl) 0)
+        if q then saveOpsQ true false (List.replicate (hl + bl) 0) fs
         else saveOps true false (List.replicate hl 0) (List.replicate bl 0) fs
       ((), ";".intercalate (ops.map showOp))
     | _, _, _, _ => bad
@@ -203,6 +211,28 @@ def snapStep (_ : Unit) (line : String) : Unit × String :=
       let c := compressValue ⟨tt, delta, true⟩ key.toList field.toList v
       ((), showCValue c ++ " => " ++ showTValue (isTT c) (decompressValue id c))
     | _, _, _, _, _ => bad
+  | ["cvalf", tt, delta, key, field, v] =>
+    match parseBool tt, parseBool delta, strOfHex key, strOfHex field, parseTValue v with
+    | some tt, some delta, some key, some field, some v =>
+      match v with
+      | .scalar sc =>
+        ((), showCScalarF (compressScalarF sc) ++ " => " ++ showTValue false (roundValueF id ⟨tt, delta, true⟩ key.toList field.toList v))
+      | _ =>
+        let c := compressValueF ⟨tt, delta, true⟩ key.toList field.toList v
+        ((), showCValue c ++ " => " ++ showTValue (isTT c) (decompressValue id c))
+    | _, _, _, _, _ => bad
+  | ["tmpnamef", h] =>
+    match strOfHex h with
+    | none => bad
+    | some s => ((), hexOfStr (String.ofList (tmpNameFixed s.toList)))
+  | ["embf", ttok, v] =>
+    match parseBool ttok, parseNats v with
+    | some ttok, some v =>
+      match fromDenseFixed (fun _ => ttok) v with
+      | .dense d => ((), "dense => " ++ showNats (toDense id (.dense d)))
+      | .sparse dim ps xs => ((), s!"sparse {showNats ps} => " ++ showNats (toDense id (.sparse dim ps xs)))
+      | .tt _ => ((), "tt => tt")
+    | _, _ => bad
   | ["c2t", c] =>
     match parseCValue c with
     | some c => ((), showTValue (isTT c) (decompressValue id c))
